@@ -36,9 +36,14 @@ Record worker := {
 Inductive runpc :=
 | RStart                      (* parked at run.start *)
 | RSort (unmatched : N)       (* parked at run.before_sort *)
-| RNotifyRead                 (* parked at run.before_notify_read *)
-| RNotify                     (* parked at run.before_notify (the flag was read as true) *)
-| REnd.                       (* parked at run.end; the next step returns and releases the lock *)
+| REnd (completed : bool).    (* parked at run.end; the next step returns from run() and drops the guard *)
+
+(* the pool closure after it has released the lock (it still has to look at the notify flag) *)
+Inductive postpc :=
+| PNone
+| PUnlocked (completed : bool)   (* parked at run.unlocked *)
+| PNotify                        (* parked at run.before_notify: completed and the flag was read as true *)
+| PDone.                         (* parked at run.done *)
 
 Inductive lockst :=
 | Free
@@ -71,7 +76,8 @@ Record nstate := {
   tpc : tickpc;
   last_tick : option (bool * bool);   (* (changed, running) of the last completed tick *)
   notifies : N;                       (* ghost: notify calls from the worker *)
-  injectors : list (N * N)            (* live injector handle -> stream id *)
+  injectors : list (N * N);           (* live injector handle -> stream id *)
+  post : postpc                       (* the pool thread between unlock and the end of its closure *)
 }.
 
 Definition init_snapshot : snapshot := {| sn_count := 0; sn_matches := []; sn_pat := 0; sn_sid := 0 |}.
@@ -81,22 +87,24 @@ Definition init_worker : worker :=
 Definition init_nstate : nstate :=
   {| streams := [(0, [])]; cur := 0; next_sid := 1; ui_state := SInit; ui_pat := 0; ui_status := Unchanged;
      snap := init_snapshot; wk := init_worker; lock := Free; canceled := false; should_notify := false;
-     tpc := TIdle; last_tick := None; notifies := 0; injectors := [] |}.
+     tpc := TIdle; last_tick := None; notifies := 0; injectors := []; post := PNone |}.
 
 (* ---- record updates ------------------------------------------------------------------------------- *)
-Definition upd_streams s v := {| streams := v; cur := cur s; next_sid := next_sid s; ui_state := ui_state s; ui_pat := ui_pat s; ui_status := ui_status s; snap := snap s; wk := wk s; lock := lock s; canceled := canceled s; should_notify := should_notify s; tpc := tpc s; last_tick := last_tick s; notifies := notifies s; injectors := injectors s |}.
-Definition upd_cur s v n := {| streams := streams s; cur := v; next_sid := n; ui_state := ui_state s; ui_pat := ui_pat s; ui_status := ui_status s; snap := snap s; wk := wk s; lock := lock s; canceled := canceled s; should_notify := should_notify s; tpc := tpc s; last_tick := last_tick s; notifies := notifies s; injectors := injectors s |}.
-Definition upd_ui_state s v := {| streams := streams s; cur := cur s; next_sid := next_sid s; ui_state := v; ui_pat := ui_pat s; ui_status := ui_status s; snap := snap s; wk := wk s; lock := lock s; canceled := canceled s; should_notify := should_notify s; tpc := tpc s; last_tick := last_tick s; notifies := notifies s; injectors := injectors s |}.
-Definition upd_pat s p st := {| streams := streams s; cur := cur s; next_sid := next_sid s; ui_state := ui_state s; ui_pat := p; ui_status := st; snap := snap s; wk := wk s; lock := lock s; canceled := canceled s; should_notify := should_notify s; tpc := tpc s; last_tick := last_tick s; notifies := notifies s; injectors := injectors s |}.
-Definition upd_snap s v := {| streams := streams s; cur := cur s; next_sid := next_sid s; ui_state := ui_state s; ui_pat := ui_pat s; ui_status := ui_status s; snap := v; wk := wk s; lock := lock s; canceled := canceled s; should_notify := should_notify s; tpc := tpc s; last_tick := last_tick s; notifies := notifies s; injectors := injectors s |}.
-Definition upd_wk s v := {| streams := streams s; cur := cur s; next_sid := next_sid s; ui_state := ui_state s; ui_pat := ui_pat s; ui_status := ui_status s; snap := snap s; wk := v; lock := lock s; canceled := canceled s; should_notify := should_notify s; tpc := tpc s; last_tick := last_tick s; notifies := notifies s; injectors := injectors s |}.
-Definition upd_lock s v := {| streams := streams s; cur := cur s; next_sid := next_sid s; ui_state := ui_state s; ui_pat := ui_pat s; ui_status := ui_status s; snap := snap s; wk := wk s; lock := v; canceled := canceled s; should_notify := should_notify s; tpc := tpc s; last_tick := last_tick s; notifies := notifies s; injectors := injectors s |}.
-Definition upd_canceled s v := {| streams := streams s; cur := cur s; next_sid := next_sid s; ui_state := ui_state s; ui_pat := ui_pat s; ui_status := ui_status s; snap := snap s; wk := wk s; lock := lock s; canceled := v; should_notify := should_notify s; tpc := tpc s; last_tick := last_tick s; notifies := notifies s; injectors := injectors s |}.
-Definition upd_notify s v := {| streams := streams s; cur := cur s; next_sid := next_sid s; ui_state := ui_state s; ui_pat := ui_pat s; ui_status := ui_status s; snap := snap s; wk := wk s; lock := lock s; canceled := canceled s; should_notify := v; tpc := tpc s; last_tick := last_tick s; notifies := notifies s; injectors := injectors s |}.
-Definition upd_tpc s v := {| streams := streams s; cur := cur s; next_sid := next_sid s; ui_state := ui_state s; ui_pat := ui_pat s; ui_status := ui_status s; snap := snap s; wk := wk s; lock := lock s; canceled := canceled s; should_notify := should_notify s; tpc := v; last_tick := last_tick s; notifies := notifies s; injectors := injectors s |}.
-Definition upd_last_tick s v := {| streams := streams s; cur := cur s; next_sid := next_sid s; ui_state := ui_state s; ui_pat := ui_pat s; ui_status := ui_status s; snap := snap s; wk := wk s; lock := lock s; canceled := canceled s; should_notify := should_notify s; tpc := TIdle; last_tick := Some v; notifies := notifies s; injectors := injectors s |}.
-Definition upd_notifies s v := {| streams := streams s; cur := cur s; next_sid := next_sid s; ui_state := ui_state s; ui_pat := ui_pat s; ui_status := ui_status s; snap := snap s; wk := wk s; lock := lock s; canceled := canceled s; should_notify := should_notify s; tpc := tpc s; last_tick := last_tick s; notifies := v; injectors := injectors s |}.
-Definition upd_injectors s v := {| streams := streams s; cur := cur s; next_sid := next_sid s; ui_state := ui_state s; ui_pat := ui_pat s; ui_status := ui_status s; snap := snap s; wk := wk s; lock := lock s; canceled := canceled s; should_notify := should_notify s; tpc := tpc s; last_tick := last_tick s; notifies := notifies s; injectors := v |}.
+Definition upd_streams s v := {| streams := v; cur := cur s; next_sid := next_sid s; ui_state := ui_state s; ui_pat := ui_pat s; ui_status := ui_status s; snap := snap s; wk := wk s; lock := lock s; canceled := canceled s; should_notify := should_notify s; tpc := tpc s; last_tick := last_tick s; notifies := notifies s; injectors := injectors s; post := post s |}.
+Definition upd_cur s v n := {| streams := streams s; cur := v; next_sid := n; ui_state := ui_state s; ui_pat := ui_pat s; ui_status := ui_status s; snap := snap s; wk := wk s; lock := lock s; canceled := canceled s; should_notify := should_notify s; tpc := tpc s; last_tick := last_tick s; notifies := notifies s; injectors := injectors s; post := post s |}.
+Definition upd_ui_state s v := {| streams := streams s; cur := cur s; next_sid := next_sid s; ui_state := v; ui_pat := ui_pat s; ui_status := ui_status s; snap := snap s; wk := wk s; lock := lock s; canceled := canceled s; should_notify := should_notify s; tpc := tpc s; last_tick := last_tick s; notifies := notifies s; injectors := injectors s; post := post s |}.
+Definition upd_pat s p st := {| streams := streams s; cur := cur s; next_sid := next_sid s; ui_state := ui_state s; ui_pat := p; ui_status := st; snap := snap s; wk := wk s; lock := lock s; canceled := canceled s; should_notify := should_notify s; tpc := tpc s; last_tick := last_tick s; notifies := notifies s; injectors := injectors s; post := post s |}.
+Definition upd_snap s v := {| streams := streams s; cur := cur s; next_sid := next_sid s; ui_state := ui_state s; ui_pat := ui_pat s; ui_status := ui_status s; snap := v; wk := wk s; lock := lock s; canceled := canceled s; should_notify := should_notify s; tpc := tpc s; last_tick := last_tick s; notifies := notifies s; injectors := injectors s; post := post s |}.
+Definition upd_wk s v := {| streams := streams s; cur := cur s; next_sid := next_sid s; ui_state := ui_state s; ui_pat := ui_pat s; ui_status := ui_status s; snap := snap s; wk := v; lock := lock s; canceled := canceled s; should_notify := should_notify s; tpc := tpc s; last_tick := last_tick s; notifies := notifies s; injectors := injectors s; post := post s |}.
+Definition upd_lock s v := {| streams := streams s; cur := cur s; next_sid := next_sid s; ui_state := ui_state s; ui_pat := ui_pat s; ui_status := ui_status s; snap := snap s; wk := wk s; lock := v; canceled := canceled s; should_notify := should_notify s; tpc := tpc s; last_tick := last_tick s; notifies := notifies s; injectors := injectors s; post := post s |}.
+Definition upd_canceled s v := {| streams := streams s; cur := cur s; next_sid := next_sid s; ui_state := ui_state s; ui_pat := ui_pat s; ui_status := ui_status s; snap := snap s; wk := wk s; lock := lock s; canceled := v; should_notify := should_notify s; tpc := tpc s; last_tick := last_tick s; notifies := notifies s; injectors := injectors s; post := post s |}.
+Definition upd_notify s v := {| streams := streams s; cur := cur s; next_sid := next_sid s; ui_state := ui_state s; ui_pat := ui_pat s; ui_status := ui_status s; snap := snap s; wk := wk s; lock := lock s; canceled := canceled s; should_notify := v; tpc := tpc s; last_tick := last_tick s; notifies := notifies s; injectors := injectors s; post := post s |}.
+Definition upd_tpc s v := {| streams := streams s; cur := cur s; next_sid := next_sid s; ui_state := ui_state s; ui_pat := ui_pat s; ui_status := ui_status s; snap := snap s; wk := wk s; lock := lock s; canceled := canceled s; should_notify := should_notify s; tpc := v; last_tick := last_tick s; notifies := notifies s; injectors := injectors s; post := post s |}.
+Definition upd_last_tick s v := {| streams := streams s; cur := cur s; next_sid := next_sid s; ui_state := ui_state s; ui_pat := ui_pat s; ui_status := ui_status s; snap := snap s; wk := wk s; lock := lock s; canceled := canceled s; should_notify := should_notify s; tpc := TIdle; last_tick := Some v; notifies := notifies s; injectors := injectors s; post := post s |}.
+Definition upd_notifies s v := {| streams := streams s; cur := cur s; next_sid := next_sid s; ui_state := ui_state s; ui_pat := ui_pat s; ui_status := ui_status s; snap := snap s; wk := wk s; lock := lock s; canceled := canceled s; should_notify := should_notify s; tpc := tpc s; last_tick := last_tick s; notifies := v; injectors := injectors s; post := post s |}.
+Definition upd_injectors s v := {| streams := streams s; cur := cur s; next_sid := next_sid s; ui_state := ui_state s; ui_pat := ui_pat s; ui_status := ui_status s; snap := snap s; wk := wk s; lock := lock s; canceled := canceled s; should_notify := should_notify s; tpc := tpc s; last_tick := last_tick s; notifies := notifies s; injectors := v; post := post s |}.
+
+Definition upd_post s v := {| streams := streams s; cur := cur s; next_sid := next_sid s; ui_state := ui_state s; ui_pat := ui_pat s; ui_status := ui_status s; snap := snap s; wk := wk s; lock := lock s; canceled := canceled s; should_notify := should_notify s; tpc := tpc s; last_tick := last_tick s; notifies := notifies s; injectors := injectors s; post := v |}.
 
 Definition w_upd (w : worker) running wc last inf ms p sid : worker :=
   {| w_running := running; w_was_canceled := wc; w_last := last; w_in_flight := inf; w_matches := ms; w_pat := p; w_sid := sid |}.
@@ -211,7 +219,7 @@ Definition run_work (seen : N -> bool) (end_ : N) (canc : bool) (status : pstatu
   : worker * runpc :=
   let w0 := if cleared then w_upd w (w_running w) (w_was_canceled w) 0 [] [] (w_pat w) (w_sid w) else w in
   if pat_is_empty (w_pat w0) then
-    (scan_trivial seen end_ (reset_matches seen w0), RNotifyRead)
+    (scan_trivial seen end_ (reset_matches seen w0), REnd true)
   else
     let w1 := match status with Rescore => reset_matches seen w0 | _ => w0 end in
     match status, w_matches w1 with
@@ -224,11 +232,11 @@ Definition run_work (seen : N -> bool) (end_ : N) (canc : bool) (status : pstatu
 (* the sort phase: par_quicksort reports `canceled` iff it saw the flag; otherwise the matches are sorted
    and the `unmatched` placeholders (which sort last) are truncated *)
 Definition run_sort (canc : bool) (unm : N) (w : worker) : worker * runpc :=
-  if canc then (w_upd w (w_running w) true (w_last w) (w_in_flight w) (w_matches w) (w_pat w) (w_sid w), REnd)
+  if canc then (w_upd w (w_running w) true (w_last w) (w_in_flight w) (w_matches w) (w_pat w) (w_sid w), REnd false)
   else
     let sorted := sort_matches (w_sid w) (w_matches w) in
     (w_upd w (w_running w) (w_was_canceled w) (w_last w) (w_in_flight w)
-           (firstn (length sorted - N.to_nat unm) sorted) (w_pat w) (w_sid w), RNotifyRead).
+           (firstn (length sorted - N.to_nat unm) sorted) (w_pat w) (w_sid w), REnd true).
 
 (* ---- tick_inner's body (with the guard held) ------------------------------------------------------ *)
 (* returns the new state and (changed, running); when running it stops at tick.before_spawn *)
@@ -302,7 +310,12 @@ Definition step_tick (s : nstate) : nstate :=
     | _ => upd_tpc s (TTryFailed second changed1)
     end
   | TTryFailed second changed1 => upd_tpc (upd_notify s true) (TAfterRearm second changed1)
-  | TAfterRearm second changed1 => upd_last_tick s (changed1, true)
+  | TAfterRearm second changed1 =>
+    (* the run may have finished in the meantime: look at the lock once more *)
+    match lock s with
+    | Free => tick_body (upd_lock s HeldTick) false Unchanged second changed1 true
+    | _ => upd_last_tick s (changed1, true)
+    end
   | TBeforeSpawn cflag status cleared changed second changed1 t0 =>
     (* spawn: the guard moves into the closure; the run sets running / was_canceled and parks at run.start *)
     let w := wk s in
@@ -316,25 +329,30 @@ Definition step_tick (s : nstate) : nstate :=
   end.
 
 Definition step_run (s : nstate) (seen : list N) (end_ : N) : nstate :=
-  match lock s with
-  | HeldRun pc status cleared =>
-    let w := wk s in
-    match pc with
-    | RStart =>
-      let sid := w_sid w in
-      let seenf i := existsb (N.eqb i) seen && published s sid i in
-      let e := N.min end_ (count_of s sid) in
-      let '(w', pc') := run_work seenf e (canceled s) status cleared w in
-      upd_lock (upd_wk s w') (HeldRun pc' status cleared)
-    | RSort unm =>
-      let '(w', pc') := run_sort (canceled s) unm w in
-      upd_lock (upd_wk s w') (HeldRun pc' status cleared)
-    | RNotifyRead =>
-      upd_lock s (HeldRun (if should_notify s then RNotify else REnd) status cleared)
-    | RNotify => upd_lock (upd_notifies s (notifies s + 1)) (HeldRun REnd status cleared)
-    | REnd => upd_lock s Free
+  match post s with
+  | PUnlocked completed =>
+    (* fence; read the flag *)
+    upd_post s (if completed && should_notify s then PNotify else PDone)
+  | PNotify => upd_post (upd_notifies s (notifies s + 1)) PDone
+  | PDone => upd_post s PNone
+  | PNone =>
+    match lock s with
+    | HeldRun pc status cleared =>
+      let w := wk s in
+      match pc with
+      | RStart =>
+        let sid := w_sid w in
+        let seenf i := existsb (N.eqb i) seen && published s sid i in
+        let e := N.min end_ (count_of s sid) in
+        let '(w', pc') := run_work seenf e (canceled s) status cleared w in
+        upd_lock (upd_wk s w') (HeldRun pc' status cleared)
+      | RSort unm =>
+        let '(w', pc') := run_sort (canceled s) unm w in
+        upd_lock (upd_wk s w') (HeldRun pc' status cleared)
+      | REnd completed => upd_post (upd_lock s Free) (PUnlocked completed)
+      end
+    | _ => s
     end
-  | _ => s
   end.
 
 Definition do_event (s : nstate) (e : event) : nstate :=
